@@ -153,6 +153,24 @@ def CardOk (c : SegCol) : Prop :=
 /-- column statistics cover every stored value (of deleted docs too) -/
 def StatsOk (c : SegCol) : Prop := ∀ k ∈ c.keys, ∀ v, k = some v → c.stats.1 ≤ v ∧ v ≤ c.stats.2
 
+/-- Key sequences (doc-id order) of every segment a sorted index can come to hold, whatever the
+history: a FRESH segment is written in `sort_order`; deletes only clear alive bits and a merge
+writes the live docs only (`live`); a merge is either the k-way merge of its sources' live docs
+(`kway`) or — when the decision procedure says so and the columns are `Full`/`Optional` with
+statistics covering their values — the plain stacking of the readers (`stack`). Merged segments
+are sources of later merges. -/
+inductive ReachableKeys (desc : Bool) : List SKey → Prop
+  | fresh (keys : List SKey) : ReachableKeys desc ((sortOrder keys desc).filterMap (keys[·]?))
+  | live (ks : List SKey) (alive : List Bool) : ReachableKeys desc ks →
+      ReachableKeys desc (liveDocs ks alive)
+  | kway (runs : List Run) : (∀ r ∈ runs, ReachableKeys desc (r.map (·.1))) →
+      ReachableKeys desc ((kmerge desc runs).map (·.1))
+  | stack (cs : List SegCol) : (∀ c ∈ cs, ReachableKeys desc c.keys) →
+      (∀ c ∈ cs, c.keys.length = c.alive.length) → (∀ c ∈ cs, CardOk c) →
+      (∀ c ∈ cs, c.card ≠ .multivalued) → (∀ c ∈ cs, StatsOk c) → (∀ c ∈ cs, c.liveKeys ≠ []) →
+      stackDecisionG desc cs = some true →
+      ReachableKeys desc ((cs.map SegCol.liveKeys).flatten)
+
 /-- `sort_readers_by_min_sort_field`: stable sort of the readers by `min_value` -/
 def sortReaders {β} (desc : Bool) (rs : List (Stats × β)) : List (Stats × β) :=
   rs.mergeSort fun a b => if desc then b.1.1 ≤ a.1.1 else a.1.1 ≤ b.1.1
